@@ -42,6 +42,69 @@ def run(args, stdin, timeout=20):
             "rc": p.returncode}
 
 
+def run_endless(args, line, via_file, timeout=10):
+    """An UNBOUNDED input: `line` repeated for ever, on stdin or through a named pipe given as the file argument {FIFO}.
+    The run must end by itself (C14); a run still going after `timeout` seconds is killed and reported as a timeout."""
+    import shutil, tempfile, threading, time
+    b = build()
+    if b is None:
+        return {"error": "build failed: " + _built.get("err", "")}
+    tmp = tempfile.mkdtemp(prefix="jawk-probe-")
+    fifo = os.path.join(tmp, "in.fifo")
+    os.mkfifo(fifo)
+    so, se = open(os.path.join(tmp, "out"), "wb"), open(os.path.join(tmp, "err"), "wb")
+    argv = [b] + [a.replace("{FIFO}", fifo) for a in args]
+    p = subprocess.Popen(argv, stdin=subprocess.DEVNULL if via_file else subprocess.PIPE, stdout=so, stderr=se)
+    stop = threading.Event()
+    fed = [0]
+
+    def feed():
+        data = line.encode("utf-8")
+        block = data * (65536 // max(1, len(data)) + 1)
+        fd = None
+        try:
+            if via_file:
+                while fd is None and not stop.is_set():
+                    try:
+                        fd = os.open(fifo, os.O_WRONLY | os.O_NONBLOCK)
+                    except OSError:
+                        time.sleep(0.01)
+            else:
+                fd = p.stdin.fileno()
+                os.set_blocking(fd, False)
+            while fd is not None and not stop.is_set():
+                try:
+                    fed[0] += os.write(fd, block)
+                except BlockingIOError:
+                    pass
+                time.sleep(0.005)
+        except OSError:
+            pass          # EPIPE: the reader went away, which is what C14 expects
+        finally:
+            if via_file and fd is not None:
+                try:
+                    os.close(fd)
+                except OSError:
+                    pass
+    t = threading.Thread(target=feed, daemon=True)
+    t.start()
+    try:
+        rc = p.wait(timeout=timeout)
+        obs = {"rc": rc}
+    except subprocess.TimeoutExpired:
+        p.kill()
+        p.wait()
+        obs = {"timeout": True, "rc": None}
+    stop.set()
+    t.join(2)
+    so.close(); se.close()
+    obs["stdout"] = open(os.path.join(tmp, "out"), "rb").read()[:100000].decode("utf-8", "replace")
+    obs["stderr"] = open(os.path.join(tmp, "err"), "rb").read()[-1500:].decode("utf-8", "replace")
+    obs["bytes_offered"] = fed[0]
+    shutil.rmtree(tmp, ignore_errors=True)
+    return obs
+
+
 def run_probe(probe):
     """probe: {args, stdin | stdin_hex, expect_stdout? , expect_rc?, expect_no_panic?}
     or {steps: [{args, stdin}...], expect: "<python expression over o = list of stdouts, rc = list of exit codes>"}.
@@ -64,8 +127,11 @@ def run_probe(probe):
         if any(x == 101 for x in rc):
             ok = False
         return ok, obs
-    stdin = bytes.fromhex(probe["stdin_hex"]) if "stdin_hex" in probe else probe.get("stdin", "")
-    obs = run(probe.get("args", []), stdin)
+    if "endless" in probe:
+        obs = run_endless(probe.get("args", []), probe["endless"], any("{FIFO}" in a for a in probe.get("args", [])))
+    else:
+        stdin = bytes.fromhex(probe["stdin_hex"]) if "stdin_hex" in probe else probe.get("stdin", "")
+        obs = run(probe.get("args", []), stdin)
     if "error" in obs:
         return None, obs
     ok = True
